@@ -219,7 +219,6 @@ class MainModel(Model):
         self.methods[("args.envelope", "open")] = self.rec("open_envelope", lambda: ObjV("fh"))
         self.methods[("args.output", "open")] = self.rec("open_output", lambda: ObjV("fhout"))
         self.methods[("args.keystore", "read_text")] = self.rec("read_text", lambda: ObjV("kstext"))
-        self.globals["Envelope"] = ObjV("Envelope")
         self.global_calls["Envelope"] = self.rec("Envelope", lambda: ObjV("envelope"))
         self.globals["KeyStore"] = ObjV("KeyStore")
         self.methods[("KeyStore", "from_text")] = self.rec("from_text", lambda: ObjV("keystore"))
@@ -230,8 +229,8 @@ class MainModel(Model):
             self.truthy[p] = z3.BoolVal(True)
 
     def p_exit(self, eng, st, args, node, **kw):
-        eng.may_raise("SystemExit", st, z3.BoolVal(False), node)
-        raise Unsupported("unreachable")
+        eng.may_raise("SystemExit", st, z3.BoolVal(False), node)  # parser.exit never returns: the continuation is infeasible
+        return NoneV()
 
     def rec(self, name, result):
         def h(eng, st, args, node, **kw):
